@@ -139,6 +139,13 @@ package boltz
 //@   ensures result0 == symFT(self, str(rowId)) && str(result1) == symBytes(self, str(rowId)) && (result1 == nil) == symBytesNil(self, str(rowId))
 //@ func (EntitySymbol).GetName
 //@   pure
+//@ func (EntitySymbol).GetStore
+//@   pure
+//@   ensures result != nil
+//@ func (Store).GetSingularEntityType
+//@   pure
+//@ func (Store).GetEntityType
+//@   pure
 //@ func (RowCursor).Tx
 //@   pure
 //@ func (RowCursor).CurrentRow
@@ -221,8 +228,12 @@ package boltz
 //@   ensures ctxTx[self] == tx
 //@ func (MutateContext).runPreCommitActions
 //@   modifies *
+// A context is a system context exactly when it is the system wrapper.
 //@ func (MutateContext).IsSystemContext
+//@   props C16
+//@   impl all
 //@   pure
+//@   ensures[system-iff-wrapper] result == istype(self, *systemMutateContext)
 //@ func NewMutateContext
 //@   pure
 //@   ensures result != nil
@@ -248,3 +259,78 @@ package boltz
 //@   modifies bucket.Err, bktHas[bucket.Bucket], bktVal[bucket.Bucket]
 //@   ensures result == bucket
 //@   ensures old(bucket.Err) != nil ==> bucket.Err == old(bucket.Err)
+
+// ---------------------------------------------------------------------------
+// System entities (C16): an operation on an entity whose stored system flag is true is
+// vetoed unless the mutate context is a system context; everything else passes.
+// ---------------------------------------------------------------------------
+
+//@ func (*IndexingContext).Tx
+//@   pure
+//@ spec isSysRow(sym Int, row Str) Bool = (and (not (f2bNull (symFT sym row) (symBytes sym row) (symBytesNil sym row))) (f2bVal (symFT sym row) (symBytes sym row)))
+
+//@ func (*systemEntityConstraint).checkOperation
+//@   props C16 C07
+//@   errflow
+//@   requires ctx != nil && ctx.Ctx != nil && self.systemFlagSymbol != nil
+//@   pure
+//@   ensures[veto-iff] (result != nil) == (isSysRow(self.systemFlagSymbol, str(ctx.RowId)) && !istype(ctx.Ctx, *systemMutateContext))
+//@ func (*systemEntityConstraint).ProcessBeforeUpdate
+//@   props C16
+//@   requires ctx != nil && ctx.Ctx != nil && ctx.ErrHolder != nil && self.systemFlagSymbol != nil
+//@   modifies holderFailed[ctx.ErrHolder]
+//@   ensures[veto-update] holderFailed[ctx.ErrHolder] == (old(holderFailed[ctx.ErrHolder]) || (!ctx.IsCreate && isSysRow(self.systemFlagSymbol, str(ctx.RowId)) && !istype(ctx.Ctx, *systemMutateContext)))
+//@ func (*systemEntityConstraint).ProcessAfterUpdate
+//@   props C16
+//@   requires ctx != nil && ctx.Ctx != nil && ctx.ErrHolder != nil && self.systemFlagSymbol != nil
+//@   modifies holderFailed[ctx.ErrHolder]
+//@   ensures[veto-create] holderFailed[ctx.ErrHolder] == (old(holderFailed[ctx.ErrHolder]) || (ctx.IsCreate && isSysRow(self.systemFlagSymbol, str(ctx.RowId)) && !istype(ctx.Ctx, *systemMutateContext)))
+//@ func (*systemEntityConstraint).ProcessBeforeDelete
+//@   props C16
+//@   requires ctx != nil && ctx.Ctx != nil && ctx.ErrHolder != nil && self.systemFlagSymbol != nil
+//@   modifies holderFailed[ctx.ErrHolder]
+//@   ensures[veto-delete] holderFailed[ctx.ErrHolder] == (old(holderFailed[ctx.ErrHolder]) || (isSysRow(self.systemFlagSymbol, str(ctx.RowId)) && !istype(ctx.Ctx, *systemMutateContext)))
+
+//@ func NewSystemMutateContext
+//@   props C16
+//@   requires ctx != nil
+//@   pure
+//@   ensures[is-system] result != nil && istype(result, *systemMutateContext)
+//@ func (*mutateContext).GetSystemContext
+//@   props C16
+//@   pure
+//@   ensures[is-system] result != nil && istype(result, *systemMutateContext)
+//@ func (*systemMutateContext).GetSystemContext
+//@   props C16
+//@   pure
+//@   ensures[is-system] result != nil && istype(result, *systemMutateContext)
+
+// ---------------------------------------------------------------------------
+// Public-symbol validation (C20)
+// ---------------------------------------------------------------------------
+
+//@ spec pubSym(store Int, symbol Str) Bool
+//@ func (Store).IsPublicSymbol
+//@   pure
+//@   ensures result == pubSym(self, symbol)
+
+// a symbol is public if it is in publicSymbols, or if it is an element m.rest of a map symbol m and m is public
+//@ func (*BaseStore).IsPublicSymbol
+//@   props C20
+//@   nosafety
+//@   pure
+//@   ensures[public-iff] result == (has(store.publicSymbols, symbol) || (str_contains(symbol, ".") && has(store.mapSymbols, splitHead(symbol, ".")) && has(store.publicSymbols, splitHead(symbol, "."))))
+
+//@ func (*publicSymbolValidator).VisitSymbol
+//@   props C20
+//@   requires visitor.store != nil
+//@   modifies visitor.err
+//@   ensures[reject-iff] (visitor.err != nil) == (old(visitor.err) != nil || !pubSym(visitor.store, symbol))
+//@   ensures[first-kept] old(visitor.err) != nil ==> visitor.err == old(visitor.err)
+
+//@ func ValidateSymbolsArePublic
+//@   props C20
+//@   requires query != nil
+//@   modifies visited, symSeen, visitorState, any publicSymbolValidator.err
+//@   ensures[visits-query] visited[query]
+//@   lensures[reports] result == visitor.err
